@@ -165,3 +165,21 @@ def pool_cases(tasks, res, timeout=240, hang_key=None):
     if n_to and not hang_key and n_to == len(tasks):
         raise RuntimeError("all worker tasks timed out")
     return good
+
+
+def run_async_cases(ctx, res, n, nsteps=10, neps=2, use_model=True):
+    """n random graphs x neps episodes on the real runtime (+ the Lean machine). Yields (task, case, episode, model_out)."""
+    seeds = [ctx.rng.randrange(1 << 30) for _ in range(n)]
+    tasks = [dict(fn="tasks_rt:async_case", args=dict(seed=s, nsteps=nsteps, tie=(i % 3 == 2), neps=neps), timeout=400) for i, s in enumerate(seeds)]
+    good = pool_cases(tasks, res, timeout=400)
+    cmds, where = [], []
+    for gi, (t, r) in enumerate(good):
+        for ei, ep in enumerate(r["episodes"]):
+            cmds.append(ep["cfg"])
+            where.append((gi, ei))
+    outs = run_driver_parallel(cmds) if (use_model and ctx.driver is not None and cmds) else [None] * len(cmds)
+    result = []
+    for (gi, ei), mo in zip(where, outs):
+        t, r = good[gi]
+        result.append((t, r, r["episodes"][ei], mo))
+    return result
